@@ -243,7 +243,11 @@ def fp_in(x, lo, hi, tiny=None):
         if tiny is not None:
             ok = ok and (np.float32(x) == 0 and not np.signbit(np.float32(x)) or abs(np.float32(x)) >= np.float32(tiny))
         return ok
-    c = z3.And(z3.fpGEQ(x, z3.FPVal(float(lo), J.F32)), z3.fpLEQ(x, z3.FPVal(float(hi), J.F32)))
+    # comparisons go through the engine's scalar rule, which folds them when the term carries a value set (e.g. a discount that is
+    # convert(bool): {0.0, 1.0}) instead of leaving an FP circuit over a large boolean cone to the solver
+    c = conj([J.s_cmp("ge", x, np.float32(lo), np.float32), J.s_cmp("le", x, np.float32(hi), np.float32)])
+    if not isinstance(c, z3.ExprRef):
+        c = z3.BoolVal(bool(c))
     if tiny is not None:
         pz = z3.And(z3.fpIsZero(x), z3.Not(z3.fpIsNegative(x)))
         c = z3.And(c, z3.Or(pz, z3.fpGEQ(z3.fpAbs(x), z3.FPVal(float(tiny), J.F32))))
